@@ -332,25 +332,33 @@ def r30_delay(repo, sink):
     _pulled afterwards; with_delay of the three delay adapters has the documented clamp."""
     tda = repo.cls("TimeDelayAdapter")
     f = repo.resolve(tda, "get_data", "method")
-    for e in [x for x in lek.require_table(repo)[0] if x.facts["TimeDelay"]]:
-        sink.check(repo.resolve(e.cls, "get_data", "method") is f, "R30", f"get_data-not-overridden:{e.name}", (e.cls.file, e.cls.node.lineno),
-                   ok="uses TimeDelayAdapter.get_data", bad=f"{e.name} overrides get_data: delay protocol bypassed")
-    # protocol by abstract run
-    it = _DelayRec(repo)
     from ..absbase import set_backed
     from .exchange import _adapter as _mk_adapter2
-    me = _mk_adapter2(repo, repo.cls("DelayFixed") if repo.has_cls("DelayFixed") else tda)
-    set_backed(repo, me, "info", Obj(label="info"))
-    q = Sym("q")
-    it.order.name(q, "q", 1)
-    tgt = Obj(label="target")
-    it.run(f, [q, tgt], self_obj=me)
-    seq = it.events
-    ok = (len(seq) == 3 and seq[0] == ("with_delay", q) and seq[1] == ("pull_data", Sym("delayed", q), tgt)
-          and seq[2] == ("_pulled", q))
-    sink.check(ok, "R30", "delay-protocol", f,
-               ok="get_data: with_delay(time) -> pull_data(delayed, target) -> _pulled(original time)",
-               bad=f"delay protocol is {seq!r}; expected with_delay(time), pull_data(with_delay(time), target), _pulled(time)")
+    delay_classes = [k for k in repo.subclasses(repo.cls("ITimeDelayAdapter")) if not repo.is_abstract(k)] if repo.has_cls("ITimeDelayAdapter") else []
+    sink.floor("R30", "time-delay adapter classes", len(delay_classes), 3)
+    # protocol by abstract run of the public get_data() of every delay adapter class: the time asked from the source is exactly
+    # what with_delay(time) returns - with_delay is all the driver sees of the adapter when it decides what the source must provide
+    for k in delay_classes:
+        g = repo.resolve(k, "get_data", "method")
+        it = _DelayRec(repo)
+        try:
+            me = _mk_adapter2(repo, k, ctor={"delay": Sym("delay"), "steps": 1, "additional_delay": Sym("extra")})
+            set_backed(repo, me, "info", Obj(label="info"))
+            me.fields.setdefault("initial_time", Sym("init"))
+            q = Sym("q")
+            it.order.name(q, "q", 1)
+            tgt = Obj(label="target")
+            it.run(g, [q, tgt], self_obj=me)
+        except (Raised, Undecided, AnalysisError) as exc:
+            sink.unknown("R30", f"delay-protocol:{k.name}", g, f"outside vocabulary: {exc}")
+            continue
+        seq = it.events
+        ok = (len(seq) == 3 and seq[0] == ("with_delay", q) and seq[1] == ("pull_data", Sym("delayed", q), tgt)
+              and seq[2] == ("_pulled", q))
+        sink.check(ok, "R30", f"delay-protocol:{k.name}", g,
+                   ok="get_data: with_delay(time) -> pull_data(delayed, target) -> _pulled(original time)",
+                   bad=f"delay protocol of {k.name} is {seq!r}; expected with_delay(time), pull_data(with_delay(time), target), _pulled(time): the driver "
+                       "checks availability for with_delay(time), the source must be asked for exactly that time")
     _r30_clamps(repo, sink)
 
 
@@ -358,6 +366,21 @@ class _DelayRec(FinamInterp):
     def __init__(self, repo):
         super().__init__(repo)
         self.events = []
+
+    def binop(self, op, left, right, node):
+        if any(isinstance(x, Sym) and x.op in ("delayed", "q", "init", "extra", "delay", "tterm") for x in (left, right)):
+            return Sym("tterm", type(op).__name__, left, right)  # arithmetic on the delayed time: another time than with_delay(time)
+        return super().binop(op, left, right, node)
+
+    def builtin(self, name, args, kwargs, node):
+        if name in ("max", "min") and any(isinstance(x, Sym) for x in args):
+            return Sym("tterm", name, *args)
+        return super().builtin(name, args, kwargs, node)
+
+    def sym_compare(self, op, left, right, node):
+        if any(isinstance(x, Sym) and x.op in ("delayed", "tterm", "init", "extra") for x in (left, right)):
+            return self.decide(Sym("cmp", type(op).__name__, left, right), node)
+        return super().sym_compare(op, left, right, node)
 
     def call_hook(self, fv, args, kwargs, node, mod):
         if isinstance(fv, Closure) and fv.self_obj is not None:
@@ -378,6 +401,20 @@ class _DelayRec(FinamInterp):
         return super().call_hook(fv, args, kwargs, node, mod)
 
 
+class _DurationOrdered(Exception):
+    pass
+
+
+class _DurationTyped(FinamInterp):
+    """Duration typing: the configured delay may be a calendar duration; it can be added to / subtracted from a point in time,
+    but it has no order."""
+
+    def sym_compare(self, op, left, right, node):
+        if isinstance(op, (ast.Lt, ast.LtE, ast.Gt, ast.GtE)) and any(x == Sym("delay") for x in (left, right)):
+            raise _DurationOrdered(f"{left!r} {type(op).__name__} {right!r}")
+        return super().sym_compare(op, left, right, node)
+
+
 def _r30_clamps(repo, sink):
     q, ini, delay = Sym("q"), Sym("init"), Sym("delay")
     # DelayFixed: max(q - delay, init)
@@ -388,11 +425,16 @@ def _r30_clamps(repo, sink):
             o = Order()
             o.name(ini, "init", 1)
             o.name(Sym("sub", q, delay), "off", rank_off)
-            it = FinamInterp(repo, o)
+            it = _DurationTyped(repo, o)
             me = Obj(cls=repo.cls("DelayFixed"), label="DelayFixed")
             me.fields.update(delay=delay, initial_time=ini)
             try:
                 got = it.run(f, [q], self_obj=me)
+            except _DurationOrdered as d:
+                worst = worst or (f"with_delay orders the configured delay itself ({d}): the constructor accepts calendar durations (relativedelta, e.g. one "
+                                  "month), which cannot be ordered - every call raises TypeError, in the pull path and in the driver alike; only points in "
+                                  "time may be compared (time - delay against the start time)")
+                break
             except Undecided as u:
                 raise AnalysisError(f"DelayFixed.with_delay: {u}") from u
             from ..absbase import same_value
@@ -790,10 +832,11 @@ class _ConvRec(ExchMixin, FinamInterp):
 
     def ext_call(self, name, args, kwargs, node):
         short = name.split(".")[-1]
-        if short == "isMaskedArray":
-            return False
-        if short == "stack":
-            return Sym("stack", tuple(args[0]))
+        if short in ("isMaskedArray", "isMA", "is_masked_array"):
+            return bool(getattr(self, "masked_slices", False))
+        if short in ("stack", "concatenate", "vstack"):
+            # numpy's plain functions return plain arrays for masked input (the masks are dropped); the np.ma ones keep them
+            return Sym("mastack" if ".ma." in "." + name else "stack", tuple(args[0]))
         if short == "Quantity":
             return Sym("qty", args[0], args[1])
         return super().ext_call(name, args, kwargs, node)
@@ -873,6 +916,23 @@ def r18_pullpath(repo, sink):
                    bad=why + ": labelling them with the input's units turns the following conversion into a no-op (1000 m arrive as 1000 km)")
     except (Raised, Undecided, AnalysisError) as exc:
         sink.unknown("R18", "convert:several-time-entries", pd, f"outside vocabulary: {exc}")
+    # the same with masked slices: the re-assembled array keeps their masks (plain np.stack returns an unmasked array)
+    it = _ConvRec(repo)
+    it.order.name(q, "q", 1)
+    it.n_time = 2
+    it.masked_slices = True
+    try:
+        me, _src, _req, _deliv = _linked(repo, it)
+        it.events.clear()
+        it.run(pd, [q], self_obj=me)
+        tu = [e for e in it.events if e[0] == "to_units"]
+        arg = tu[0][1] if tu else None
+        plain = "stack(" in repr(arg).replace("mastack(", "")
+        sink.check(bool(tu) and not plain, "R18", "convert:several-masked-time-entries", pd,
+                   ok="masked time slices are re-assembled with a mask-preserving function",
+                   bad=f"masked time slices are re-assembled as {arg!r}: numpy's plain stacking drops the masks, masked cells arrive as valid values")
+    except (Raised, Undecided, AnalysisError) as exc:
+        sink.unknown("R18", "convert:several-masked-time-entries", pd, f"outside vocabulary: {exc}")
 
 
 def _prop_info(repo, it, me):
